@@ -22,7 +22,7 @@ def predict(cfg, rng, q=None):
         q, _ = build(cfg)
     w = winding(q)
     n += 1
-    if q.helicity != q.sG * q.spsi * w or q.helicity != int(q.helicity):
+    if (normal_resolved(q) and q.helicity != q.sG * q.spsi * w) or q.helicity != int(q.helicity):
         out.append(dict(key='helicity', what='helicity %r but sG*spsi*(turns of the normal) = %d' % (q.helicity, q.sG * q.spsi * w), cfg=jsonable(cfg)))
     n += 1
     if abs(q.iotaN - (q.iota + q.helicity * q.nfp)) > 1e-13 * max(1, abs(q.iotaN)):
